@@ -444,6 +444,7 @@ func mergeStats(a, b *PathStats) {
 	a.Merges += b.Merges
 	a.SimpQueries += b.SimpQueries
 	a.IntervalDecided += b.IntervalDecided
+	a.IntervalDischarged += b.IntervalDischarged
 	for k := range b.Reached {
 		a.Reached[k] = true
 	}
